@@ -97,6 +97,10 @@ impl<T> MemoryStore<T> {
             .entry(*peer)
             .or_insert_with(|| PeerRecord::new(self.config.record_capacity));
         let is_new = record.add_address(address, is_permanent);
+        // `LruCache::entry` can exceed the capacity by one, enforce `peer_capacity` here.
+        if self.records.len() > self.records.capacity() {
+            self.records.remove_lru();
+        }
         if is_new {
             self.push_event_and_wake(Event::PeerAddressAdded {
                 peer_id: *peer,
